@@ -9,6 +9,7 @@ import (
 	"strings"
 	"testing"
 
+	"verif/internal/match"
 	"verif/internal/model"
 	"verif/internal/vk"
 
@@ -95,7 +96,7 @@ func run(r *vk.Run, prog []model.Node, partials map[string][]model.Node, class s
 	if res.Err != nil {
 		return fail("render failed: %v; reference output %q", res.Err, want.Out)
 	}
-	if res.Out != want.Out {
+	if !match.SameText(res.Out, want.Out) {
 		return fail("output\n    %q, reference says\n    %q", res.Out, want.Out)
 	}
 	return nil
